@@ -623,9 +623,10 @@ func (m *Manager) readIntoTable(id uint64, reader io.Reader) error {
 
 			batchCmd.Table = cmd.Table
 			batchCmd.LeaderIndex = cmd.LeaderIndex
+			// The record that crosses the threshold belongs to the batch being flushed.
+			batchCmd.Batch = append(batchCmd.Batch, cmd.Kv)
 
 			if uint64(estimatedSize) < m.cfg.Table.MaxInMemLogSize/2 {
-				batchCmd.Batch = append(batchCmd.Batch, cmd.Kv)
 				continue
 			}
 		}
